@@ -670,7 +670,48 @@ class World:
                 if bounded is not None and not payload_eq(
                         np.asarray(src.data), m.data, m.dtype):
                     src, bounded = g, None     # the bound itself moved cells
-        self.log.ev("clip", gid, c0, c1, rb0, rb1, bounded)
+                if bounded is not None:
+                    # cells that satisfy the range go through the data setter
+                    # and through save / load of that same grid unchanged
+                    how = cs.choice("bounded_path", ["setter", "load", "none"])
+                    with warnings.catch_warnings():
+                        warnings.simplefilter("ignore")
+                        try:
+                            if how == "setter":
+                                src.data = m.data.copy()
+                            elif how == "load":
+                                fb = self.root / "bounded.bil"
+                                src.save(str(fb))
+                                src.load(str(fb))
+                        except Exception as e:
+                            raise Violation("load_failed", f"grid#{gid} with "
+                                            f"{bounded}data set: {how} raised "
+                                            f"{e!r}", "clip")
+                    if how != "none":
+                        check_grid(src, m, f"clone of grid#{gid} with "
+                                   f"{bounded}data = its own {bounded}imum, "
+                                   f"after {how}", "clip")
+        pm = m          # model of the grid that is clipped
+        if bounded is not None and cs.flip("flag_cell_outside_range", 50):
+            # a cell written afterwards by item assignment (which does not
+            # clip) with a value outside the declared range
+            flat = m.data.reshape(-1)
+            fin = flat[flat == flat] if m.dtype.kind == "f" else flat
+            k = cs.draw("flag_cell", m.nrows * m.ncols)
+            lim = fin.min() if bounded == "min" else fin.max()
+            info = np.finfo(m.dtype) if m.dtype.kind == "f" \
+                else np.iinfo(m.dtype)
+            v = info.min if bounded == "min" else info.max
+            if v != lim:
+                try:
+                    src[[k]] = np.array([v], dtype=m.dtype)
+                    pm = m.copy()
+                    pm.data.reshape(-1)[k] = v
+                    if not payload_eq(np.asarray(src.data), pm.data, m.dtype):
+                        pm, src, bounded = m, g, None   # item write clipped
+                except Exception:
+                    pm, src, bounded = m, g, None
+        self.log.ev("clip", gid, c0, c1, rb0, rb1, bounded, pm is not m)
         if bounded:
             self.ctx.hit("probe.clip_of_parent_with_data_range")
         with warnings.catch_warnings():
@@ -683,7 +724,7 @@ class World:
                                 f"raised {e!r}", "clip")
         rt0 = m.nrows - 1 - rb1
         rt1 = m.nrows - 1 - rb0
-        want = m.data[rt0:rt1 + 1, c0:c1 + 1]
+        want = pm.data[rt0:rt1 + 1, c0:c1 + 1]
         cm = GModel(want.shape[0], want.shape[1], m.cellsize,
                     float(c.xllcorner), float(c.yllcorner), m.dtype, m.nodata,
                     want.copy())
@@ -857,9 +898,24 @@ class World:
         ncols = cs.between("ncols", 2, 7)
         fd = acyclic_flowdir(cs, nrows, ncols, "fd")
         csz = gen_double(cs, "csz", positive=True)
-        fg = Grid("flowdir", ncols, nrows, cellsize=csz,
-                  xllcorner=gen_double(cs, "xll"),
-                  yllcorner=gen_double(cs, "yll"), dtype=np.int64, nodata=0)
+        # the flow directions arrive in the type of the raster they were read
+        # from (Grid's own default is float64) with its no-data value
+        fdt, fnod = cs.weighted("flow_dtype", [(("int64", 0), 5),
+                                               (("float64", None), 2),
+                                               (("float64", -9999.0), 1),
+                                               (("int32", 0), 1),
+                                               (("float32", 0.0), 1),
+                                               (("uint8", 255), 1)])
+        kw = {} if fnod is None else {"nodata": fnod}
+        if fdt == "float64" and fnod is None and cs.flip("default_dtype", 50):
+            fg = Grid("flowdir", ncols, nrows, cellsize=csz,
+                      xllcorner=gen_double(cs, "xll"),
+                      yllcorner=gen_double(cs, "yll"))
+        else:
+            fg = Grid("flowdir", ncols, nrows, cellsize=csz,
+                      xllcorner=gen_double(cs, "xll"),
+                      yllcorner=gen_double(cs, "yll"),
+                      dtype=getattr(np, fdt), **kw)
         fg.data[...] = fd
         cat = Catchment("cat", fg)
         self.nid += 1
